@@ -59,6 +59,8 @@ class NP:
         m[np.isscalar] = lambda i, v: False
         m[np.size] = lambda i, v: self.size(v)
         m[functools.reduce] = lambda i, f, xs: self.reduce(f, xs)
+        m[np.any] = lambda i, v: v
+        m[np.all] = lambda i, v: v
 
     def const(self, name, shape=()):
         v = SReal(self.I.ctx.const(name, z3.RealSort()))
